@@ -134,7 +134,7 @@ func runCompJob(job *Job, res *Result) {
 	}
 	report := func(v Violation, s *vs.Sched) {
 		v.Job = job.ID
-		v.Prop = "C19"
+		v.Prop = job.Prop
 		if v.Signature == "" {
 			v.Signature = res.Scenario + "|" + v.Class + "|" + v.Detail
 		}
@@ -466,6 +466,37 @@ func compScenarios(a map[string]string) *compScenario {
 				}
 			},
 		}
+	case "joinorder":
+		// two sub-stream carriers arrive at a joined in-port; the sub-stream of the SECOND one may be
+		// closed first: the joined outputs still leave in the order the carriers arrived (C08)
+		return &compScenario{
+			desc: "joined-in-port/two-sub-streams/second-may-close-first",
+			maxT: 2,
+			setup: func() {
+				os.WriteFile("m1.txt", []byte("member of set1\n"), 0644)
+				os.WriteFile("m2.txt", []byte("member of set2\n"), 0644)
+			},
+			build: func(wf *sp.Workflow) {
+				f := newTwoSubFeeder(wf, "feed")
+				j := wf.NewProc("j", "cat {i:in|join: } > {o:out}")
+				j.SetOut("out", "{i:in}.joined.txt")
+				j.In("in").From(f.OutPort("out"))
+				r := newRecorder(wf, "rec")
+				r.InPort("in").From(j.Out("out"))
+			},
+			oracle: func(o *Obs, add func(class, detail string)) {
+				got := received(o.Notes)["rec"]
+				want := []string{"set1.joined.txt", "set2.joined.txt"}
+				if strings.Join(got, ",") != strings.Join(want, ",") {
+					add("order", fmt.Sprintf("the joined outputs left the out-port as %v, their input sets arrived as %v", got, want))
+				}
+				for i, p := range want {
+					if c := o.Tree[p]; c != fmt.Sprintf("member of set%d\n", i+1) {
+						add("join-content", fmt.Sprintf("%s holds %q", p, c))
+					}
+				}
+			},
+		}
 	case "concatgroups":
 		// Concatenator with GroupByTag over a stream that mixes untagged inputs and inputs tagged g=x / g=y
 		tags := strings.Split(a["tags"], ",")
@@ -651,4 +682,47 @@ func (p *taggedSource) Run() {
 		}
 		p.OutPort("out").Send(ip)
 	}
+}
+
+// twoSubFeeder sends two sub-stream carriers (set1, set2) and then feeds and closes their
+// sub-streams from two goroutines of its own (either may finish first).
+type twoSubFeeder struct {
+	sp.BaseProcess
+}
+
+func newTwoSubFeeder(wf *sp.Workflow, name string) *twoSubFeeder {
+	p := &twoSubFeeder{BaseProcess: sp.NewBaseProcess(wf, name)}
+	p.InitOutPort(p, "out")
+	wf.AddProc(p)
+	return p
+}
+
+func (p *twoSubFeeder) Run() {
+	defer p.CloseAllOutPorts()
+	carriers := []*sp.FileIP{}
+	for _, n := range []string{"set1", "set2"} {
+		c, err := sp.NewFileIP(n)
+		if err != nil {
+			p.Fail(err)
+		}
+		carriers = append(carriers, c)
+	}
+	done := make(chan int, 2)
+	for i, c := range carriers {
+		i, c := i, c
+		go func() {
+			m, err := sp.NewFileIP(fmt.Sprintf("m%d.txt", i+1))
+			if err != nil {
+				p.Fail(err)
+			}
+			c.SubStream.Send(m)
+			close(c.SubStream.Chan)
+			done <- 1
+		}()
+	}
+	for _, c := range carriers {
+		p.OutPort("out").Send(c)
+	}
+	<-done
+	<-done
 }
